@@ -154,7 +154,11 @@ inline bool read_line(std::string &line) {
 	return !line.empty();
 }
 
-inline void hist_done(long long i) { Ev("HistDone").i("i", i).emit(); out().flush(); }
+// One history normally takes micro- to milliseconds. A history that runs for a whole minute is a call
+// that does not return (e.g. a walk over a structure that became cyclic): it is recorded as an event
+// and the process ends; the driver restarts after it.
+inline void arm_watchdog() { alarm(60); }
+inline void hist_done(long long i) { Ev("HistDone").i("i", i).emit(); out().flush(); arm_watchdog(); }
 
 // ---------------------------------------------------------------- args
 struct Args {
@@ -205,6 +209,12 @@ inline void install_terminate() {
 		_exit(76);
 	});
 	if(__sanitizer_set_death_callback) __sanitizer_set_death_callback([] { out().flush(); });
+	{
+		struct sigaction sa; memset(&sa, 0, sizeof sa);
+		sa.sa_handler = [](int) { out().flush(); const char m[] = "{\"e\":\"hang\",\"why\":\"a library call did not return within 60 s\"}\n"; (void)!::write(1, m, sizeof m - 1); _exit(74); };
+		sigaction(SIGALRM, &sa, nullptr);
+		arm_watchdog();
+	}
 	for(int sig : {SIGILL, SIGABRT, SIGFPE, SIGBUS}) {
 		struct sigaction sa; memset(&sa, 0, sizeof sa);
 		sa.sa_handler = [](int sg) { out().flush(); const char m[] = "fatal signal\n"; (void)!::write(2, m, sizeof m - 1); _exit(70 + (sg & 7)); };
